@@ -388,19 +388,22 @@ theorem CfsInv.reopen {c : Sys} (i : Inv c) (h : CfsInv c) (f : Bool) : CfsInv (
       exact List.mem_singleton.mpr rfl
     exact ⟨_, hjob, r, hmem, hrc⟩
 
-theorem CfsInv.step {c : Sys} {s : State} (h : R c s) (ci : CfsInv c) (op : Op) : CfsInv (c.step op).1 := by
+theorem CfsInv.stepI {c : Sys} (hi : Inv c) (ci : CfsInv c) (op : Op) : CfsInv (c.step op).1 := by
   cases op with
   | begin t l => exact ci.begin t l
-  | set t k n => exact CfsInv.set h.inv ci t k n
-  | del t k => exact CfsInv.del h.inv ci t k
+  | set t k n => exact CfsInv.set hi ci t k n
+  | del t k => exact CfsInv.del hi ci t k
   | get t k => exact ci
   | keys t => exact ci
-  | commit t => exact CfsInv.commit h.inv ci t
+  | commit t => exact CfsInv.commit hi ci t
   | rollback t => exact ci.rollback t
-  | gc => exact CfsInv.gc h.inv ci
+  | gc => exact CfsInv.gc hi ci
   | drain => exact ci.drain
-  | reopen f => exact CfsInv.reopen h.inv ci f
+  | reopen f => exact CfsInv.reopen hi ci f
   | tree => exact ci
+
+theorem CfsInv.step {c : Sys} {s : State} (h : R c s) (ci : CfsInv c) (op : Op) : CfsInv (c.step op).1 :=
+  CfsInv.stepI h.inv ci op
 
 /-- the three invariants along every history (reopenings and storage walks included) -/
 theorem reach_all {c : Sys} {s : State} (h : R c s) (ri : RecInv c) (ci : CfsInv c) (ops : List Op) :
